@@ -309,18 +309,23 @@ class ParkDeque(deque):
         self._s.park("q.reverse")
         return deque.reverse(self)
 
+    # (deque's own index wrappers call len(self) for negative indices, which would be a second, artificial scheduling
+    # point through our __len__: normalise the index first)
+    def _ix(self, i):
+        return i + deque.__len__(self) if isinstance(i, int) and i < 0 else i
+
     def __delitem__(self, i):
         self._s.park("q.delitem")
-        return deque.__delitem__(self, i)
+        return deque.__delitem__(self, self._ix(i))
 
     def __setitem__(self, i, x):
         self._s.park("q.setitem")
-        return deque.__setitem__(self, i, x)
+        return deque.__setitem__(self, self._ix(i), x)
 
     # reads: a check-then-act repair ("if queue[-1] is mine: pop") must be interleavable too
     def __getitem__(self, i):
         self._s.park("q.read")
-        return deque.__getitem__(self, i)
+        return deque.__getitem__(self, self._ix(i))
 
     def __len__(self):
         self._s.park("q.read")
